@@ -52,6 +52,26 @@ def stack_fill_program(per_level, innermost, depth=62):
         nest(innermost, "0"), nest(per_level, "f(n - 1)"), depth)
 
 
+def shallow_call_programs():
+    """Every method name of the built-in classes called on a receiver of every kind with 0..3 arguments as a BARE STATEMENT OF MODULE-LEVEL
+    CODE: below the receiver the value stack holds the script's own slot and nothing else, so a built-in that looks at an operand slot it
+    was not given (before checking how many it got) reaches below the stack - the checked stack refuses, the unchecked one reads on."""
+    from props import c02 as _c02
+    recv = [("str", '"ab\u00e9"'), ("vec", "[1, 2]"), ("tuple", "(1, 2)"), ("map", "{1: 2}"), ("range", "(0..3)"), ("num", "1.5"), ("bool", "true"), ("nil", "nil"),
+            ("class", "Box"), ("instance", "Box.new()"), ("fn", "|a| a"), ("fiber", "Fiber.new(|| 1)"), ("iter", "[1, 2].iter()"), ("bound", "[1].len"),
+            ("String", "String"), ("Fiber", "Fiber"), ("error", "Error.new(1)")]
+    out = []
+    for rn, rexpr in recv:
+        lines = ["#[constructor(new)] class Box { }", "var g = %s;" % rexpr]
+        for m in _c02.METHODS:
+            for argc in range(4):
+                args = ", ".join(["0", "\"a\"", "g"][:argc])
+                lines.append("try { g.%s(%s); print(\"ok\"); } catch e { print(type(e)); }" % (m, args))
+        lines.append("print(\"done\");")
+        out.append(("shallow:%s" % rn, "\n".join(lines) + "\n", {}))
+    return out
+
+
 def configs(thorough):
     cfgs = [("dev", ()), ("release", ()), ("release", tuple(FEATURES))]
     if thorough:
@@ -75,6 +95,7 @@ def correspondence(ctx, model_ok=True):
     extra += [("c09:" + n, s_, {}) for n, s_, _, _ in c09.SCENARIOS] + [("c18:" + n, s_, {}) for n, s_, _ in c18.SCENARIOS]
     extra += probes_gc.all_probes()
     extra += [("stackfill:262:%d" % k, stack_fill_program(262, k), {}) for k in (9, 10, 11)]
+    extra += shallow_call_programs()
     asrc, amods = c08.aftermath_program()
     extra += [("c08:aftermath", asrc, amods)]
     extra += [("c08:aftermath:%d" % k, "%s try { %s } catch e { print(type(e)); } %s\n" % t, amods) for k, t in enumerate(c08.AFTERMATH)]
